@@ -54,6 +54,10 @@ Row(s, e) ==
       n == Len(s.rows) + 1 IN
   \* the row equals an independent evaluation of nominal + recorded perturbations + same compensation
   (IF SameOps(e.ops, e.re_ops, s.nom_ops, exact, 30) THEN {} ELSE {"row_true"}) \cup
+  \* ... "followed by the same compensation": the compensation run afresh on a fresh copy (a fresh
+  \* Tolerancing object) starting from the nominal compensator values, as every trial does
+  (IF "re_comp" \in DOMAIN e /\ Len(e.re_comp) > 0 /\ ~SameOps(e.ops, e.re_comp, s.nom_ops, FALSE, 20)
+   THEN {"row_compensated"} ELSE {}) \cup
   \* a perturbation equal to the nominal value reproduces the nominal operand values
   (IF (\A p \in 1..Len(e.pv) : Applied(e, p) => e.pv[p] = s.nom_pert[p])
         => SameOps(e.ops, s.nom_ops, s.nom_ops, exact, 20)
